@@ -180,6 +180,10 @@ def _cp_card_step(self, iter, env, card, dummy, declarer, hand_open):
                                                              PR.SUIT_LETTER[card.suit])))
 
 
+def _four_cards(_):
+    return _ == 3
+
+
 @contract('bridge_env.network_bridge.client.Client.playing_phase', props=P)
 class _client_playing:
     params = dict(contract=ContractS)
@@ -190,7 +194,8 @@ class _client_playing:
                              havoc=dict(hand_open=Bool()),
                              havoc_heap={'env': OPPShape, 'self.hand_set': CardSet(),
                                          'self.connection_socket': Ext('socket', dict(
-                                             pos=Int(0), sent=TraceReset()))}),
+                                             pos=Int(0), sent=TraceReset()))},
+                             body_ensures=dict(four_cards_per_trick=_four_cards)),
              1: LoopContract(invariant=_cp_inner_inv,
                              havoc=dict(hand_open=Bool()),
                              havoc_heap={'env': OPPShape, 'self.hand_set': CardSet(),
